@@ -29,7 +29,9 @@ Definition result_validb (sA sB : list Z) (r : result) : bool :=
 
 Record align_case := {
   ac_in : cin;
-  ac_fn : nat;          (* 0: calign.<mode function>; 1: calign.align_pair; 2: talign.<fn>; 3: talign.align_pair *)
+  ac_fn : nat;          (* 0: calign.<mode function>; 1: calign.align_pair; 2: talign.<fn>; 3: talign.align_pair;
+                           4: calign.align_pairwise (mode function with the batch-level secondary flag and the
+                              calign distance) *)
   ac_mode : mode;
   ac_sec : bool;        (* for ac_fn = 0: the secondary_* twin was called *)
   ac_gop : Q;           (* gop argument (align_pair, talign) *)
@@ -41,6 +43,7 @@ Definition model_of (c : align_case) : result :=
   match ac_fn c with
   | 0%nat => align (ac_in c) (ac_mode c) (ac_sec c)
   | 1%nat => align_pair (ac_in c) (ac_gop c) (ac_mode c)
+  | 4%nat => align (ac_in c) (ac_mode c) (ac_sec c)
   | _ => talign (seqA (ac_in c)) (seqB (ac_in c)) (ac_gop c) (scale (ac_in c)) (scorer (ac_in c)) (ac_mode c)
   end.
 
@@ -49,12 +52,14 @@ Definition eff_in (c : align_case) : cin :=
   match ac_fn c with
   | 0%nat => ac_in c
   | 1%nat => with_gop (ac_in c) (ac_gop c)
+  | 4%nat => ac_in c
   | _ => talign_in (seqA (ac_in c)) (seqB (ac_in c)) (ac_gop c) (scale (ac_in c)) (scorer (ac_in c))
   end.
 Definition eff_sec (c : align_case) : bool :=
   match ac_fn c with
   | 0%nat => ac_sec c
   | 1%nat => any_restricted (ac_in c)
+  | 4%nat => ac_sec c
   | _ => false
   end.
 
@@ -78,6 +83,7 @@ Definition dist_ok (c : align_case) : bool :=
   | Some d, Some s =>
       match ac_fn c with
       | 1%nat => qclose d (distance (ac_in c) s)
+      | 4%nat => qclose d (distance (ac_in c) s)
       | _ => qclose d (1 - (2 # 1) * s / (talign_self (scorer (ac_in c)) (seqA (ac_in c))
                                           + talign_self (scorer (ac_in c)) (seqB (ac_in c))))
       end
